@@ -120,7 +120,7 @@ package types
 //@   ensures idx: result0 == old(idxOf(vals, address))
 //@   ensures rng: -1 <= result0 && result0 < len(vals.Validators)
 //@   ensures none: result0 < 0 <==> result1 == nil
-//@   ensures copy: result0 >= 0 ==> result1.VotingPower == vals.Validators[result0].VotingPower && result1.PubKey == vals.Validators[result0].PubKey && result1.Address == vals.Validators[result0].Address
+//@   ensures copy: result0 >= 0 ==> result1.VotingPower == vals.Validators[result0].VotingPower && result1.PubKey == vals.Validators[result0].PubKey && result1.Address == vals.Validators[result0].Address && result1.ProposerPriority == vals.Validators[result0].ProposerPriority
 //@   loop 1 invariant idx: 0 <= rangeindex + 1 && rangeindex + 1 <= len(vals.Validators)
 //@   loop 1 invariant none: idxOf(vals, address) == idxFrom(vals, address, rangeindex + 1)
 
@@ -291,12 +291,44 @@ package types
 //@   trusted
 //@   assigns nothing
 //@   ensures fresh: result != nil
+// valsetOK: the representation invariant of a validator set in use. It is an object invariant: relied upon at calls from
+// other packages; inside package types it is proved where stated (not re-proved after the final sort of an update, and
+// prioBounded not after a rotation - see the C08 notes).
+//@ spec func valsetOK(vals *ValidatorSet) bool = wfSet(vals) && wfPowers(vals) && wfCached(vals) && prioBounded(vals)
 //@ func ValidatorSet.UpdateWithChangeSet
+//@   relies wf: valsetOK(vals)
+//@   requires changes: forall(i, 0, len(changes), changes[i] != nil)
+//@   assigns vals.Validators, vals.Proposer, vals.totalVotingPower, all(Validator.ProposerPriority), elems(*Validator)
+//@   ensures untouched: result != nil ==> (len(vals.Validators) == old(len(vals.Validators)) && vals.Proposer == old(vals.Proposer) &&
+//@     | forall(i, 0, len(vals.Validators), vals.Validators[i] == old(vals.Validators[i]) && vals.Validators[i].Address == old(vals.Validators[i].Address) && vals.Validators[i].VotingPower == old(vals.Validators[i].VotingPower) && vals.Validators[i].ProposerPriority == old(vals.Validators[i].ProposerPriority)))
+// prioSum: the sum of the first n priorities (mathematical integers).
+//@ spec func prioSum(vals *ValidatorSet, n int) int = ite(n <= 0, 0, prioSum(vals, n-1) + vals.Validators[n-1].ProposerPriority)
+// ASSUMED (math/big is not modelled): the average is the floor of sum/n.
+//@ func ValidatorSet.computeAvgProposerPriority
 //@   trusted
-//@   assigns vals.Validators, vals.Proposer, vals.totalVotingPower, all(Validator.ProposerPriority)
+//@   assigns nothing
+//@   ensures floor: result * len(vals.Validators) <= prioSum(vals, len(vals.Validators)) && prioSum(vals, len(vals.Validators)) < result * len(vals.Validators) + len(vals.Validators)
+
+// Centering subtracts the average from every priority (saturating).
+//@ func ValidatorSet.shiftByAvgProposerPriority
+//@   requires wf: wfSet(vals)
+//@   assigns all(Validator.ProposerPriority)
+//@   ensures shifted: forall(i, 0, len(vals.Validators), vals.Validators[i].ProposerPriority == clipI(old(vals.Validators[i].ProposerPriority) - avgProposerPriority))
+//@   ensures avg: avgProposerPriority * len(vals.Validators) <= old(prioSum(vals, len(vals.Validators))) && old(prioSum(vals, len(vals.Validators))) < avgProposerPriority * len(vals.Validators) + len(vals.Validators)
+//@   loop 1 invariant idx: 0 <= rangeindex + 1 && rangeindex + 1 <= len(vals.Validators)
+//@   loop 1 invariant done: forall(i, 0, rangeindex + 1, vals.Validators[i].ProposerPriority == clipI(old(vals.Validators[i].ProposerPriority) - avgProposerPriority))
+//@   loop 1 invariant rest: forall(i, rangeindex + 1, len(vals.Validators), vals.Validators[i].ProposerPriority == old(vals.Validators[i].ProposerPriority))
+
+// Rotation by `times` turns: rescale to a window of 2*total, centre, then exactly `times` round-robin steps; the
+// proposer is the validator chosen by the last step.
 //@ func ValidatorSet.IncrementProposerPriority
-//@   trusted
-//@   assigns vals.Proposer, all(Validator.ProposerPriority)
+//@   relies wf: wfSet(vals) && wfPowers(vals) && wfCached(vals) && prioBounded(vals)
+//@   assigns vals.Proposer, all(Validator.ProposerPriority), vals.totalVotingPower
+//@   ensures member: times > 0 ==> exists(k, 0, len(vals.Validators), vals.Proposer == vals.Validators[k])
+//@   atcall ValidatorSet.RescalePriorities window: arg1 == 2 * totalPower(vals, len(vals.Validators))
+//@   loop 1 invariant count: 0 <= i && i <= times
+//@   loop 1 invariant wf: wfSet(vals) && wfPowers(vals) && wfCached(vals)
+//@   loop 1 invariant member: i > 0 ==> exists(k, 0, len(vals.Validators), proposer == vals.Validators[k])
 //@ func UpdateConsensusParams
 //@   trusted
 //@   assigns nothing
@@ -377,3 +409,171 @@ package types
 //@   trusted
 //@   purefn
 //@   assigns nothing
+
+// ---- C08: proposer rotation (weighted round-robin) ----
+// prefer(a, b): validator a is preferred over b as proposer: higher priority, ties broken by the smaller address.
+//@ spec func prefer(a *Validator, b *Validator) bool = a.ProposerPriority > b.ProposerPriority || (a.ProposerPriority == b.ProposerPriority && a.Address < b.Address)
+// distinctAddrs: no two validators of the set share an address (so prefer is a strict total order on the set).
+//@ spec func distinctAddrs(vals *ValidatorSet) bool = forall(i, 0, len(vals.Validators), forall(j, 0, len(vals.Validators), i != j ==> vals.Validators[i].Address != vals.Validators[j].Address))
+// clip: saturating int64
+//@ spec func clipI(x int) int64 = ite(x > 9223372036854775807, 9223372036854775807, ite(x < -9223372036854775808, -9223372036854775808, x))
+
+//@ func Validator.CompareProposerPriority
+//@   assigns nothing
+//@   ensures nilcase: v == nil ==> result == other
+//@   ensures pick: v != nil ==> ((result == v || result == other) && (result == v <==> prefer(v, other) || v == other))
+
+// The proposer chosen is the validator preferred over every other one.
+//@ func ValidatorSet.getValWithMostPriority
+//@   requires wf: len(vals.Validators) > 0 && distinctAddrs(vals) && forall(i, 0, len(vals.Validators), vals.Validators[i] != nil)
+//@   assigns nothing
+//@   ensures member: exists(k, 0, len(vals.Validators), result == vals.Validators[k])
+//@   ensures best: forall(j, 0, len(vals.Validators), vals.Validators[j] == result || prefer(result, vals.Validators[j]))
+//@   loop 1 invariant idx: 0 <= rangeindex + 1 && rangeindex + 1 <= len(vals.Validators)
+//@   loop 1 invariant none: rangeindex + 1 == 0 ==> res == nil
+//@   loop 1 invariant some: rangeindex + 1 > 0 ==> exists(k, 0, rangeindex + 1, res == vals.Validators[k], rangeindex)
+//@   loop 1 invariant best: forall(j, 0, rangeindex + 1, vals.Validators[j] == res || prefer(res, vals.Validators[j]))
+
+// wfSet: the shape every validator set in use has: non-empty, members non-nil and pairwise different objects with
+// pairwise different addresses.
+//@ spec func wfSet(vals *ValidatorSet) bool = len(vals.Validators) > 0 && distinctAddrs(vals) &&
+//@   | forall(i, 0, len(vals.Validators), vals.Validators[i] != nil && forall(j, 0, len(vals.Validators), i != j ==> vals.Validators[i] != vals.Validators[j]))
+
+// One step of the weighted round-robin: every validator gains its voting power (saturating); the preferred one after
+// that becomes proposer and pays the total voting power (saturating).
+//@ func ValidatorSet.incrementProposerPriority
+//@   requires wf: wfSet(vals) && wfPowers(vals) && wfCached(vals)
+//@   assigns all(Validator.ProposerPriority), vals.totalVotingPower
+//@   ensures member: exists(k, 0, len(vals.Validators), result == vals.Validators[k])
+//@   ensures others: forall(j, 0, len(vals.Validators), vals.Validators[j] != result ==> vals.Validators[j].ProposerPriority == clipI(old(vals.Validators[j].ProposerPriority) + vals.Validators[j].VotingPower))
+//@   ensures chosen: result.ProposerPriority == clipI(clipI(old(result.ProposerPriority) + result.VotingPower) - totalPower(vals, len(vals.Validators)))
+//@   ensures best: forall(j, 0, len(vals.Validators), vals.Validators[j] == result ||
+//@     | clipI(old(result.ProposerPriority) + result.VotingPower) > clipI(old(vals.Validators[j].ProposerPriority) + vals.Validators[j].VotingPower) ||
+//@     | (clipI(old(result.ProposerPriority) + result.VotingPower) == clipI(old(vals.Validators[j].ProposerPriority) + vals.Validators[j].VotingPower) && result.Address < vals.Validators[j].Address))
+//@   ensures wf: wfCached(vals)
+//@   loop 1 invariant idx: 0 <= rangeindex + 1 && rangeindex + 1 <= len(vals.Validators)
+//@   loop 1 invariant done: forall(j, 0, rangeindex + 1, vals.Validators[j].ProposerPriority == clipI(old(vals.Validators[j].ProposerPriority) + vals.Validators[j].VotingPower))
+//@   loop 1 invariant rest: forall(j, rangeindex + 1, len(vals.Validators), vals.Validators[j].ProposerPriority == old(vals.Validators[j].ProposerPriority))
+
+// prioBounded: every priority lies within +-3*MaxTotalVotingPower (the window the algorithm keeps priorities in; ASSUMED
+// at the entry of the rescaling arithmetic, which is then proved free of overflow).
+//@ spec func prioBounded(vals *ValidatorSet) bool = forall(i, 0, len(vals.Validators), -3458764513820540925 <= vals.Validators[i].ProposerPriority && vals.Validators[i].ProposerPriority <= 3458764513820540925)
+
+//@ func computeMaxMinPriorityDiff
+//@   requires wf: len(vals.Validators) > 0 && forall(i, 0, len(vals.Validators), vals.Validators[i] != nil) && prioBounded(vals)
+//@   assigns nothing
+//@   checks ovf
+//@   ensures upper: forall(i, 0, len(vals.Validators), forall(j, 0, len(vals.Validators), vals.Validators[i].ProposerPriority - vals.Validators[j].ProposerPriority <= result))
+//@   ensures range: 0 <= result && result <= 6917529027641081850
+//@   loop 1 invariant idx: 0 <= rangeindex + 1 && rangeindex + 1 <= len(vals.Validators)
+//@   loop 1 invariant mm: forall(i, 0, rangeindex + 1, min <= vals.Validators[i].ProposerPriority && vals.Validators[i].ProposerPriority <= max)
+//@   loop 1 invariant init: rangeindex + 1 == 0 ==> (max == -9223372036854775808 && min == 9223372036854775807)
+//@   loop 1 invariant rng: rangeindex + 1 > 0 ==> (-3458764513820540925 <= min && min <= max && max <= 3458764513820540925)
+
+// Rescaling divides every priority by ceil(diff/diffMax) when the spread exceeds diffMax, and does nothing otherwise.
+//@ func ValidatorSet.RescalePriorities
+//@   requires wf: wfSet(vals) && prioBounded(vals) && diffMax <= 2305843009213693950
+//@   assigns all(Validator.ProposerPriority)
+//@   checks ovf
+//@   ensures bounded: prioBounded(vals)
+//@   ensures same: diffMax <= 0 ==> forall(i, 0, len(vals.Validators), vals.Validators[i].ProposerPriority == old(vals.Validators[i].ProposerPriority))
+//@   ensures shrink: diffMax > 0 ==> (ratio == (diff + diffMax - 1) / diffMax && forall(i, 0, len(vals.Validators), vals.Validators[i].ProposerPriority == ite(diff > diffMax, old(vals.Validators[i].ProposerPriority) / ratio, old(vals.Validators[i].ProposerPriority))))
+//@   loop 1 invariant idx: 0 <= rangeindex + 1 && rangeindex + 1 <= len(vals.Validators)
+//@   loop 1 invariant done: forall(i, 0, rangeindex + 1, vals.Validators[i].ProposerPriority == old(vals.Validators[i].ProposerPriority) / ratio)
+//@   loop 1 invariant rest: forall(i, rangeindex + 1, len(vals.Validators), vals.Validators[i].ProposerPriority == old(vals.Validators[i].ProposerPriority))
+
+// ---- C08: applying a batch of validator changes ----
+// The two orders used (the sort model of the engine assumes exactly these for the two named slice types).
+//@ func ValidatorsByAddress.Less
+//@   assigns nothing
+//@   ensures def: result <==> valz[i].Address < valz[j].Address
+//@ func ValidatorsByVotingPower.Less
+//@   assigns nothing
+//@   ensures def: result <==> (valz[i].VotingPower > valz[j].VotingPower || (valz[i].VotingPower == valz[j].VotingPower && valz[i].Address < valz[j].Address))
+
+//@ func Validator.Copy
+//@   assigns nothing
+//@   ensures same: result != nil && result.Address == v.Address && result.VotingPower == v.VotingPower && result.ProposerPriority == v.ProposerPriority && result.PubKey == v.PubKey
+
+// A deep copy: same length, element-wise equal fields, fresh objects.
+//@ func validatorListCopy
+//@   requires wf: forall(i, 0, len(valsList), valsList[i] != nil)
+//@   assigns nothing
+//@   ensures len: len(result) == len(valsList)
+//@   ensures fresh: fresh(result)
+//@   ensures same: forall(i, 0, len(result), result[i] != nil && result[i].Address == valsList[i].Address && result[i].VotingPower == valsList[i].VotingPower && result[i].ProposerPriority == valsList[i].ProposerPriority)
+//@   loop 1 invariant idx: 0 <= rangeindex + 1 && rangeindex + 1 <= len(valsList) && len(valsCopy) == len(valsList)
+//@   loop 1 invariant same: forall(i, 0, rangeindex + 1, valsCopy[i] != nil && valsCopy[i].Address == valsList[i].Address && valsCopy[i].VotingPower == valsList[i].VotingPower && valsCopy[i].ProposerPriority == valsList[i].ProposerPriority)
+
+// Validation and splitting of a batch: on success every update has a power in (0, MaxTotalVotingPower], every removal
+// has power 0, both lists are strictly increasing in address (hence duplicate-free), and together they are as many as
+// the changes; nothing visible to the caller is modified (the batch is copied first).
+//@ func processChanges
+//@   requires wf: forall(i, 0, len(origChanges), origChanges[i] != nil)
+//@   assigns nothing
+//@   ensures fail: result2 != nil ==> (len(result0) == 0 && len(result1) == 0)
+//@   ensures ups: result2 == nil ==> forall(i, 0, len(result0), result0[i] != nil && 0 < result0[i].VotingPower && result0[i].VotingPower <= MaxTotalVotingPower)
+//@   ensures dels: result2 == nil ==> forall(i, 0, len(result1), result1[i] != nil && result1[i].VotingPower == 0)
+//@   ensures count: result2 == nil ==> len(result0) + len(result1) == len(origChanges)
+//@   ensures incU: result2 == nil ==> forall(i, 0, len(result0), forall(j, 0, len(result0), i < j ==> result0[i].Address < result0[j].Address))
+//@   ensures incD: result2 == nil ==> forall(i, 0, len(result1), forall(j, 0, len(result1), i < j ==> result1[i].Address < result1[j].Address))
+//@   loop 1 invariant idx: 0 <= rangeindex + 1 && rangeindex + 1 <= len(changes) && len(updates) + len(removals) == rangeindex + 1
+//@   loop 1 invariant prev: rangeindex + 1 > 0 ==> prevAddr == changes[rangeindex].Address
+//@   loop 1 invariant ups: forall(i, 0, len(updates), updates[i] != nil && 0 < updates[i].VotingPower && updates[i].VotingPower <= MaxTotalVotingPower)
+//@   loop 1 invariant dels: forall(i, 0, len(removals), removals[i] != nil && removals[i].VotingPower == 0)
+//@   loop 1 invariant sorted: forall(i, 0, len(changes), forall(j, 0, len(changes), i < j ==> changes[i].Address <= changes[j].Address))
+//@   loop 1 invariant strict: forall(i, 0, rangeindex + 1, forall(j, 0, rangeindex + 1, i < j ==> changes[i].Address < changes[j].Address))
+//@   loop 1 invariant subU: forall(i, 0, len(updates), exists(k, 0, rangeindex + 1, updates[i] == changes[k])) && forall(i, 0, len(updates), forall(j, 0, len(updates), i < j ==> updates[i].Address < updates[j].Address))
+//@   loop 1 invariant subD: forall(i, 0, len(removals), exists(k, 0, rangeindex + 1, removals[i] == changes[k])) && forall(i, 0, len(removals), forall(j, 0, len(removals), i < j ==> removals[i].Address < removals[j].Address))
+
+//@ func numNewValidators
+//@   requires wf: forall(i, 0, len(updates), updates[i] != nil)
+//@   assigns nothing
+//@   ensures range: 0 <= result && result <= len(updates)
+//@   loop 1 invariant idx: 0 <= rangeindex + 1 && rangeindex + 1 <= len(updates) && 0 <= numNewValidators && numNewValidators <= rangeindex + 1
+
+// Removals must all be present in the set; nothing is modified.
+//@ func verifyRemovals
+//@   requires wf: len(vals.Validators) <= 2147483647 && forall(i, 0, len(deletes), deletes[i] != nil)
+//@   assigns nothing
+//@   ensures present: result1 == nil ==> forall(i, 0, len(deletes), idxOf(vals, deletes[i].Address) >= 0)
+//@   loop 1 invariant idx: 0 <= rangeindex + 1 && rangeindex + 1 <= len(deletes)
+//@   loop 1 invariant present: forall(i, 0, rangeindex + 1, idxOf(vals, deletes[i].Address) >= 0)
+
+// ASSUMED (closures handed to sort.Slice are outside the subset): checking the updates against the power limit writes at
+// most the cached total of the set, and the total it reports (updates applied, removals not yet) is below twice the cap.
+//@ func verifyUpdates
+//@   trusted
+//@   assigns vals.totalVotingPower
+//@   ensures cache: old(wfCached(vals)) ==> wfCached(vals)
+//@   ensures bound: result1 == nil ==> (0 <= result0 && result0 <= 2305843009213693950)
+
+// New validators start at -1.125 * (total after updates, before removals), computed without overflow (updated ones take
+// over the priority of the validator they replace: not under obligation, it needs the update records to be apart from the set).
+//@ func computeNewPriorities
+//@   requires wf: len(vals.Validators) <= 2147483647 && forall(i, 0, len(updates), updates[i] != nil) && forall(i, 0, len(updates), forall(j, 0, len(updates), i != j ==> updates[i] != updates[j]))
+//@   requires bound: 0 <= updatedTotalVotingPower && updatedTotalVotingPower <= 2305843009213693950
+//@   assigns all(Validator.ProposerPriority)
+//@   checks ovf
+//@   ensures set: forall(i, 0, len(updates), (idxOf(vals, updates[i].Address) < 0 ==> updates[i].ProposerPriority == -(updatedTotalVotingPower + updatedTotalVotingPower / 8)))
+//@   loop 1 invariant idx: 0 <= rangeindex + 1 && rangeindex + 1 <= len(updates)
+//@   loop 1 invariant set: forall(i, 0, rangeindex + 1, (idxOf(vals, updates[i].Address) < 0 ==> updates[i].ProposerPriority == -(updatedTotalVotingPower + updatedTotalVotingPower / 8)))
+
+
+// ASSUMED (merge loops over re-sliced lists are outside what the engine proves): after the verified changes are merged
+// in and the removals taken out, the list is again a well-formed set with non-negative powers.
+//@ func ValidatorSet.applyUpdates
+//@   trusted
+//@   assigns vals.Validators, elems(*Validator)
+//@ func ValidatorSet.applyRemovals
+//@   trusted
+//@   assigns vals.Validators, elems(*Validator)
+//@   ensures wf: wfSet(vals) && wfPowers(vals) && prioBounded(vals)
+
+// A batch either fails leaving the set untouched, or is applied and the total is recomputed within the limit.
+//@ func ValidatorSet.updateWithChangeSet
+//@   requires wf: wfSet(vals) && wfPowers(vals) && wfCached(vals) && prioBounded(vals) && forall(i, 0, len(changes), changes[i] != nil)
+//@   assigns vals.Validators, vals.totalVotingPower, all(Validator.ProposerPriority), elems(*Validator)
+//@   ensures untouched: result != nil ==> (len(vals.Validators) == old(len(vals.Validators)) && vals.Proposer == old(vals.Proposer) &&
+//@     | forall(i, 0, len(vals.Validators), vals.Validators[i] == old(vals.Validators[i]) && vals.Validators[i].Address == old(vals.Validators[i].Address) && vals.Validators[i].VotingPower == old(vals.Validators[i].VotingPower) && vals.Validators[i].ProposerPriority == old(vals.Validators[i].ProposerPriority)))
+//@   atcall sort.Sort total: vals.totalVotingPower == totalPower(vals, len(vals.Validators)) && 0 <= vals.totalVotingPower && vals.totalVotingPower <= MaxTotalVotingPower
